@@ -1,7 +1,9 @@
 (* C12 -- the boolean checker used on the implementation's output (Corr/C12.v, reports_ok)
    decides exactly the declarative specification; "absent" corollaries. *)
 From Coq Require Import Lia ZifyBool.
-From CR Require Import Model.Verify Model.VerifySpec Proofs.Verify.
+From CR Require Import Model.Verify.
+From CR Require Import Model.VerifySpec.
+From CR Require Import Proofs.Verify.
 Local Open Scope Z_scope.
 
 Lemma count_not_in : forall p l, ~ In p l -> count p l = 0%nat.
